@@ -4,6 +4,7 @@ CONSTANTS
  Nodes = {1, 2, 3} Adv = {} Requesters = {1} Verifiers = {}
  Values <- Vals1 NChunks = 2 Window = 10 Pre <- NoPre
  MaxReq = 2 MaxVer = 0 MaxHon = 0 MaxDup = 1 MaxDrop = 1 MaxAdv = 0 MaxTimeouts = 1 MaxTicks = 0
+ AdvKinds = {"junk", "data", "resp", "chal"} AdvResps = {0, 1, 2, 3}
  TickSteps = {}
  OnceOnly = TRUE CheckPeer = TRUE CheckHash = TRUE AskConsent = TRUE
 INVARIANT StoredIntact
